@@ -464,7 +464,7 @@ func (m *Mint) MintTokens(mintTokensRequest nut04.PostMintBolt11Request) (cashu.
 
 		// update mint quote to previous state if there was an error
 		if err != nil {
-			if err := m.db.UpdateMintQuoteState(mintQuote.Id, mintQuote.State); err != nil {
+			if err := m.db.UpdateMintQuoteState(mintQuote.Id, nut04.Paid); err != nil {
 				return nil, err
 			}
 			return nil, err
